@@ -79,6 +79,17 @@ SCENARIOS = [
         {"a": "RoaAdd", "c": "B", "r": ["p1", "a0"]}, {"a": "StepAll"},
         {"a": "RoaDelta", "c": "B", "add": [],
          "del": ["p1|a1", "p1|a2", "p1|a3", "p1|a0"]}, {"a": "StepAll"}]},
+    # the daily snapshot job after several publications: a new snapshot of
+    # every aggregate, and of the publication server's content, whose change
+    # sets are folded into the snapshot and removed; every cut, then a
+    # restart (the content must be what was acknowledged) and one more
+    # publication
+    {"id": "snap", "keys": 400, "top": TOP, "prefix": WITH_ROA + [
+        {"a": "RoaAdd", "c": "B", "r": ["p1", "a2"]}, {"a": "Pump"},
+        {"a": "RoaAdd", "c": "B", "r": ["p1", "a3"]}, {"a": "Pump"}],
+     "chain": [
+        {"a": "UpdateSnapshots"}, {"a": "StepAll"},
+        {"a": "RoaDel", "c": "B", "r": ["p1", "a2"]}, {"a": "StepAll"}]},
     # the server's operator removes a publisher that has objects and adds
     # it again (two stores: access and content)
     {"id": "pubrm", "keys": 280, "top": TOP, "prefix": WITH_ROA, "chain": [
